@@ -55,7 +55,16 @@ check('C18', 'Hypothesis-generated inputs meeting each side condition; different
       'Sampling only; side conditions evaluated on the input text and on the HtmlRenderer parse.',
       'DESIGN.md 5/C18')
 
+check('C17', 'Hypothesis-generated hostile and pooled inputs; LaTeX output scanner (groups, environments, verbatim regions, escape forms) plus skeleton invariance under text neutralisation',
+      'hypothesis-sharded',
+      'LaTeXRenderer output for pooled inputs and for snippets whose text, URLs, sources and info strings are rich in LaTeX specials is '
+      'scanned by an own state machine (normal / \\verb / lstlisting / URL argument): only the renderer\'s control sequences and escape '
+      'forms, balanced groups, nested environments, no bare special; the same tree with neutralised text must give the same event skeleton.',
+      'Sampling only. Math spans are masked (by design pass-through). Three recorded findings (image source, code language, '
+      '\\end{lstlisting} inside code) are excluded by narrow input classes and announced as KNOWN-FINDING.',
+      'DESIGN.md 5/C17')
+
 _PENDING = 'check not built yet in this revision (work in progress; technique applies, see DESIGN.md section 5)'
 for _p in ['C03', 'C04', 'C05', 'C07', 'C09', 'C10', 'C11', 'C13', 'C14',
-           'C16', 'C17', 'C19']:
+           'C16', 'C19']:
     NOT_YET[_p] = _PENDING
